@@ -96,7 +96,7 @@ Inductive lines_met (cfg : config) : list bytes -> nat -> bool -> state -> state
 
 (* every executed line up to the first stop (or the end) meets its demand *)
 Inductive all_met (cfg : config) : list bytes -> nat -> bool -> state -> state -> Prop :=
-| AM_end n f st : all_met cfg [] n f st (end_bg st)
+| AM_end n f st : all_met cfg [] n f st (end_bg (set_lineno st n))
 | AM_comment l ls n f st stF :
     is_comment l = true -> all_met cfg ls (S n) f st stF -> all_met cfg (l :: ls) n f st stF
 | AM_line l ls n f st st1 stF :
@@ -109,7 +109,7 @@ Inductive all_met (cfg : config) : list bytes -> nat -> bool -> state -> state -
 (* ContinueOnError: every line is executed, met or not, until a stop, a skip or the end;
    [U] collects the numbers of the lines whose demand was not met *)
 Inductive exec_all (cfg : config) : list bytes -> nat -> bool -> state -> end_kind -> state -> list nat -> Prop :=
-| EA_end n f st : exec_all cfg [] n f st (end_of f) (end_bg st) []
+| EA_end n f st : exec_all cfg [] n f st (end_of f) (end_bg (set_lineno st n)) []
 | EA_comment l ls n f st k stF U :
     is_comment l = true -> exec_all cfg ls (S n) f st k stF U -> exec_all cfg (l :: ls) n f st k stF U
 | EA_met l ls n f st st1 k stF U :
